@@ -368,3 +368,17 @@ Proof.
   intros H. apply (f_equal (fun r => match r with Ok x => x | _ => m end)) in H. cbv beta iota in H. rewrite <- H.
   cbn [m_frag m_sum]. intros ->. reflexivity.
 Qed.
+
+(* parse level: with no transfer pending, a read whose extracted messages are all unfragmented
+   delivers exactly unpack's messages (as plain deliveries), returns unpack's error and leaves the
+   transfer table empty: expiry pass, loop and housekeeping are all the identity *)
+Lemma parse_unfragmented now st d : ps_x st = [] ->
+  Forall (fun rm => m_sum (snd rm) = 0) (u_msgs (unpack (ps_hist st) d)) ->
+  parse now st d =
+  ({| ps_hist := u_hist (unpack (ps_hist st) d); ps_x := [] |},
+   map (fun rm => {| p_raw := fst rm; p_msg := snd rm; p_complete := false |}) (u_msgs (unpack (ps_hist st) d)),
+   u_err (unpack (ps_hist st) d)).
+Proof.
+  intros Hx H. unfold parse. rewrite Hx. change (delete_timeout now []) with (@nil (N * xfer)).
+  rewrite (cp_loop_unfragmented now _ [] H). cbn [housekeeping map]. now rewrite app_nil_r.
+Qed.
